@@ -5,10 +5,10 @@ package xpath
 type logical func(iterator, string, interface{}, interface{}) bool
 
 var logicalFuncs = [][]logical{
-	{cmpBooleanBoolean, nil, nil, nil},
-	{nil, cmpNumericNumeric, cmpNumericString, cmpNumericNodeSet},
-	{nil, cmpStringNumeric, cmpStringString, cmpStringNodeSet},
-	{nil, cmpNodeSetNumeric, cmpNodeSetString, cmpNodeSetNodeSet},
+	{cmpBooleanAny, cmpBooleanAny, cmpBooleanAny, cmpBooleanAny},
+	{cmpBooleanAny, cmpNumericNumeric, cmpNumericString, cmpNumericNodeSet},
+	{cmpBooleanAny, cmpStringNumeric, cmpStringString, cmpStringNodeSet},
+	{cmpBooleanAny, cmpNodeSetNumeric, cmpNodeSetString, cmpNodeSetNodeSet},
 }
 
 // number vs number
@@ -175,6 +175,28 @@ func cmpBooleanBoolean(t iterator, op string, m, n interface{}) bool {
 	a := m.(bool)
 	b := n.(bool)
 	return cmpBooleanBooleanF(op, a, b)
+}
+
+// cmpBooleanAny compares two values of which at least one is a boolean:
+// `=` and `!=` convert both to booleans, the other operators to numbers.
+func cmpBooleanAny(t iterator, op string, m, n interface{}) bool {
+	num := func(v interface{}) float64 {
+		switch v.(type) {
+		case string, float64:
+			return asNumber(t, v)
+		}
+		if asBool(t, v) {
+			return 1
+		}
+		return 0
+	}
+	switch op {
+	case "=":
+		return asBool(t, m) == asBool(t, n)
+	case "!=":
+		return asBool(t, m) != asBool(t, n)
+	}
+	return cmpNumberNumberF(op, num(m), num(n))
 }
 
 // eqFunc is an `=` operator.
